@@ -37,6 +37,7 @@ typedef struct {
   char* script[2][MAXS];
   arec_t allocs[MAXA];
   char wire[1 << 16]; size_t wlen;
+  char oserr[1 << 14]; size_t elen;
 } hs_t;
 typedef struct { uv_udp_send_t req; int h; unsigned seq; char* payload; } sreq_t;
 
@@ -79,7 +80,23 @@ static void drain1(int rx, int fam) {
 static void drain(void) { drain1(rx4, 4); drain1(rx6, 6); }
 static void print_wire(void) {
   drain();
-  for (int i = 0; i < nH; i++) if (H[i]->wlen) { printf("wire h%d%s\n", i, H[i]->wire); H[i]->wlen = 0; H[i]->wire[0] = 0; }
+  for (int i = 0; i < nH; i++) {
+    if (H[i]->elen) { fputs(H[i]->oserr, stdout); H[i]->elen = 0; H[i]->oserr[0] = 0; }
+    if (H[i]->wlen) { printf("wire h%d%s\n", i, H[i]->wire); H[i]->wlen = 0; H[i]->wire[0] = 0; }
+  }
+}
+/* a scripted error was returned for a call whose first datagram is m: remember "h<i> oserr r<seq> <errno>" */
+static void note_oserr(int h, const struct msghdr* m, int e) {
+  unsigned char b[6]; size_t got = 0, tot = 0;
+  for (size_t j = 0; j < m->msg_iovlen; j++) {
+    const unsigned char* p = m->msg_iov[j].iov_base; size_t n = m->msg_iov[j].iov_len;
+    tot += n;
+    for (size_t o = 0; o < n && got < 6; o++) b[got++] = p[o];
+  }
+  hs_t* s = H[h];
+  if (s->elen > sizeof s->oserr - 64) return;
+  if (tot == 0) s->elen += sprintf(s->oserr + s->elen, "h%d oserr r? %d\n", h, e);
+  else s->elen += sprintf(s->oserr + s->elen, "h%d oserr r%u %d\n", h, b[0] | b[1] << 8 | b[2] << 16 | (unsigned) b[3] << 24, e);
 }
 
 /* ------------------------------------------------------------------ interposed system calls */
@@ -92,7 +109,7 @@ static int next_sout(hs_t* s, unsigned* k) {   /* 1: k<n>, -1: errno set, 0: exh
 ssize_t sendmsg(int fd, const struct msghdr* m, int flags) {
   int h = h_of_fd(fd); unsigned k;
   if (h >= 0) {
-    if (next_sout(H[h], &k) < 0) return -1;
+    if (next_sout(H[h], &k) < 0) { int e = errno; note_oserr(h, m, e); errno = e; return -1; }
     ssize_t r = syscall(SYS_sendmsg, fd, m, flags);
     if (r < 0) printf("h%d real-sendmsg-failed %d\n", h, errno);
     drain();
@@ -104,7 +121,7 @@ int sendmmsg(int fd, struct mmsghdr* m, unsigned int n, int flags) {
   int h = h_of_fd(fd); unsigned k;
   if (h >= 0) {
     int o = next_sout(H[h], &k);
-    if (o < 0) return -1;
+    if (o < 0) { int e = errno; if (n > 0) note_oserr(h, &m[0].msg_hdr, e); errno = e; return -1; }
     if (o == 0 || k > n) k = n;
     if (k < 1) k = 1;
     int r = (int) syscall(SYS_sendmmsg, fd, m, k, flags);
@@ -308,7 +325,7 @@ static int hid(const char* w) { if (!w || w[0] != 'h' || w[1] < '0' || w[1] > '9
 
 int main(void) {
   static char line[1 << 18];
-  setvbuf(stdout, NULL, _IOFBF, 1 << 16);
+  setvbuf(stdout, NULL, _IOLBF, 1 << 16);   /* a crash must not lose the log */
   uv_replace_allocator(my_malloc, realloc, calloc, free);
   uv_loop_init(&loop);
   rx4 = socket(AF_INET, SOCK_DGRAM, 0); rx6 = socket(AF_INET6, SOCK_DGRAM, 0);
